@@ -66,7 +66,7 @@ FLOORS = {
         "leaves_multi_value": 600, "leaves_leaf_mode": 600, "leaves_ns_around_scan": 450, "result_checks": 3400,
     },
 }
-TIMEOUT_S = {"quick": 900, "thorough": 3600}
+TIMEOUT_S = {"quick": 900, "thorough": 5400}
 NCASES = {"quick": 200, "thorough": 1500}
 TOL = 2e-5
 
@@ -647,6 +647,13 @@ def run_case(case, ctx):
                     "scan-in-namespace|leaf-save|raises:ValueError",
                     {"expected_path": "/".join(leaf_unstorable[0]), **res.brief()}, name,
                 )
+            elif mixed:
+                # the wrong out-dims of the tag_state batch rule can surface only once the
+                # function is staged (same mechanism as the plain-run failure)
+                report(
+                    "vmap|multi-value-tag-mixed-batch-dims|identity-broken",
+                    {"what": "plain f(*args) happens to work, the state-wrapped run raises", **res.brief()}, name,
+                )
             else:
                 report(f"state|run|raises:{res.type}", res.brief(), name)
             continue
@@ -657,7 +664,10 @@ def run_case(case, ctx):
         ctx.count("result_checks")
         bad = compare_result(got_ret, base)
         if bad is not None:
-            report("state|result-changed", {"what": bad[0], "compared_with": base_name, **bad[1]}, name)
+            report(
+                "vmap|multi-value-tag-mixed-batch-dims|identity-broken" if mixed else "state|result-changed",
+                {"what": bad[0], "compared_with": base_name, **bad[1]}, name,
+            )
         for k, detail in compare_collected(got_coll, exp, ctx, count=True):
             report(k, detail, name)
     flush()
